@@ -24,7 +24,8 @@ CLAIMS = {
         "instantiation, equals RFC 8259's (same accept/reject for every lexeme sequence up to the nesting bound, incl. unterminated strings meeting the sentinel and trailing bytes), "
         "by exhaustive exploration of the product with a reference transducer; (b) parseNumber, abstractly interpreted over byte classes, only steps its cursor along transitions of the RFC 8259 number DFA and "
         "reports success only in accepting states (digit after '.', 'e', sign, '-'; no digits after a leading 0), with the digit helpers verified over all 256 bytes; (c) literal constants and cursor advances; "
-        "(d) sentinel bytes and padding; (e) failure coherence: root installed only on the no-error edge, old DOM destroyed first, reported offset bounded by the length. "
+        "(d) sentinel bytes and padding; (e) failure coherence: root installed only on the no-error edge, old DOM destroyed first, reported offset bounded by the length; "
+        "(f) overflow rejection: the Eisel-Lemire path can only store a biased exponent in [1,0x7FE] (guards evaluated over wrap-around candidates) and a success return after the AtofNative fallback sits on the not-infinity edge; the SIMD white-space tables select exactly the four JSON white-space bytes. "
         "NOT decided: string scanning (C05), numeric values (C04), SIMD white-space skipping, the error-class naming."),
   note='Trusted: clang 14 front end; the hand-written reference transducer (sv/e6_vpa.py ref_step) and number DFA (sv/props/c01_number.py); contract that each scalar sub-parser consumes one well-formed lexeme of its kind or sets err_; simd_str2int digit-count contract. Nesting explored exactly up to depth 3 (quick) / 4 (thorough), element counts saturate at 2. Unmodelled statements -> exit 2.',
   design='5/C01'),
@@ -33,7 +34,7 @@ CLAIMS = {
   technique='model extraction + exhaustive product comparing SAX event streams (E6); exact checks of enum/shift constants (E5)',
   text=("Decides: (a) the SAX transduction of the parser skeleton is canonical - Start/End events on brackets, exactly one count increment per completed element or member, End*(count) arguments, Key before ':' and a value event after it - "
         "by the same product exploration as C01, comparing output streams with the reference transducer; (b) the type-flag algebra of type.h (basic types distinct in 3 bits, sub-types refine their basic type, container mask selects exactly object/array, 8 info bits); "
-        "(c) every length pack/unpack shift uses the info width. NOT decided: node copying, parent-index chaining, white-space bitmap caching, accessor behaviour, numeric values."),
+        "(c) every length pack/unpack shift uses the info width; (d) the truncation flag of parseNumber is monotone and the 20th digit is folded into an integer exactly when the result fits uint64 (branch conditions evaluated on a grid around UINT64_MAX/10). NOT decided: node copying, parent-index chaining, white-space bitmap caching, accessor behaviour, numeric values."),
   note='Trusted: clang 14 front end; reference transducer; scalar sub-parser contract. Bounds as C01.',
   design='5/C03'),
  'C04': dict(
@@ -42,7 +43,7 @@ CLAIMS = {
   text=("Decides: (a) every initialised row of kPow10M128Tab equals floor(10^e 2^(127-floor(log2 10^e))) for e=-348..347, kPow10Tab[i] is the exact double 10^i, LSHIFT_TAB[k] == {digits(2^k), str(5^k)}, "
         "kUint8PopCnt[i]==bit_length(i), kPowTab and the local pow10[] table; (b) every subscript into these tables is inside the initialised rows on all paths (interval analysis with "
         "parameter ranges joined over call sites and callee post-conditions for by-reference arguments); (c) the exact fast-path guards lie inside the region where Clinger's argument applies "
-        "(|exp10|<=22(+15), mantissa < 2^53, normal-double window of ParseFloatingNormalFast, 2^63 / UINT64_MAX/10 / %10 integer boundaries, (217706 e)>>16 == floor(e log2 10) on the whole table range). "
+        "(|exp10|<=22(+15), mantissa < 2^53, normal-double window of ParseFloatingNormalFast, 2^63 / UINT64_MAX/10 / %10 integer boundaries, (217706 e)>>16 == floor(e log2 10) on the whole table range); every multiply/divide of parseFloatingFast's accumulator acts on the converted mantissa or on a product tested <= 2^53 since it last changed; the 20-digit fold is reached iff man*10+digit <= UINT64_MAX; (d) the truncation flag is only set or OR-ed; (e) AtofEiselLemire64 stores only biased exponents in [1,0x7FE] and the AtofNative result is screened for infinity before success. "
         "NOT decided: correct rounding, Eisel-Lemire bail-out logic, the big-decimal fallback, digit accumulation/truncation bookkeeping - numerical results are outside a sound static argument in reach."),
   note='Trusted: clang 14 front end and constant evaluator; Python big integers/fractions; simd_str2int is analysed for its by-reference post-condition only; intrinsic result ranges (movemask, ctz).',
   design='5/C04'),
@@ -51,7 +52,7 @@ CLAIMS = {
   technique='exact table verification and exact-division theorem on reciprocal constants (E5); abstract evaluation of the SSE digit splitter from its IR for every 4-digit group; interval analysis of subscripts and argument ranges (E3)',
   text=("Decides: (a) kDigits is 00..99 and the splat tables; (b) floor(n*m>>s)==floor(n/10^4) for all n<10^8 for the multiplier/shift bound from UtoaSSE's data flow (exact-division theorem), and UtoaSSE's actual intrinsic "
         "pipeline, evaluated lane-exactly from the IR, yields the 8 decimal digits for every 4-digit group value in both halves (20017 inputs); (c) split points 10^8/10^16, every kDigits subscript within the array, "
-        "every call of the 8/16-digit vector routines passes a value below 10^8/10^16; (d) I64toa stores '-' and negates. NOT decided: end-to-end digit composition for all 2^64 values."),
+        "every call of the 8/16-digit vector routines passes a value below 10^8/10^16; (d) I64toa stores '-' and negates; (e) every 64->32 bit cast of a variable in itoa.h is value preserving. NOT decided: end-to-end digit composition for all 2^64 values."),
   note='Trusted: clang 14 front end; Intel lane semantics of 13 SSE2 intrinsics in sv/sse_interp.py; exact-division theorem (Hacker\'s Delight 10-9).',
   design='5/C08'),
  'C06': dict(
@@ -59,7 +60,7 @@ CLAIMS = {
   technique='write-budget abstract interpretation over the CFG of SerializeImpl (E4: lower bound of reserved-but-unwritten bytes, affine in the string length, min-join, widening); dominance rules for error exits',
   text=("Decides: (a) along every path of SerializeImpl (both node types, loops by fixpoint) each PushUnsafe / PushSizeUnsafe / Push5_8 and each writer called at wb.End() (Quote, U64toa, I64toa, F64toa) is covered by "
         "the Grow/Reserve in force since the last consumption, using the callees' write contracts; (b) a non-positive F64toa result never reaches a push and the three error classes plus the kind-switch default reach a non-zero return without writing; "
-        "Dump returns ToString() only on kErrorNone; (c) ToString grows before writing the terminator. NOT decided: separator/Pop logic producing well-formed text, round-trip equality, Stack::Grow's own arithmetic (trusted post-condition)."),
+        "Dump returns ToString() only on kErrorNone; (c) ToString grows before writing the terminator; (d) structural obligations of the number writers shared with C07/C08 (Schubfach interval endpoints open exactly for odd significands; no lossy 64->32 truncation in ftoa.h/itoa.h). NOT decided: separator/Pop logic producing well-formed text, round-trip equality, Stack::Grow's own arithmetic (trusted post-condition)."),
   note='Trusted: clang 14 front end; post-condition of Stack::Grow; writer contracts (cross-referenced to C07/C08/C09 evidence); node type invariant for the inner kind switch.',
   design='5/C06'),
  'C07': dict(
@@ -67,7 +68,7 @@ CLAIMS = {
   technique='exact big-integer table verification, exhaustive evaluation of approximation formulas over the double exponent range (E5); must-dominance with case split (E2); interval analysis of the table index (E3); sibling-agreement rule on interval endpoints (E9)',
   text=("Decides: (a) all rows of the Pow10CeilSig table equal ceil(10^k 2^-r); (b) the two log approximations are exact for every binary exponent a double can have (2046 values) and every induced k; (c) the table index is in range; "
         "(d) Ctz10 equals the decimal digit count at every power-of-ten boundary; (e) every positive-length return of F64toa has stored '.' or went through a formatter that stores '.'/'e' on all paths, Inf/NaN return 0; "
-        "(f) closed-form maximum length <= 32 and <= the serializer reserve; (g) both rounding-interval endpoints are adjusted by the same parity c&1. NOT decided: shortest/closest/round-trip (Schubfach interval arithmetic is value level)."),
+        "(f) closed-form maximum length <= 32 and <= the serializer reserve; (g) every comparison of F64ToDecimal that tests the left/right RoundToOdd boundary uses boundary +/- (c&1), decided by evaluating the substituted expressions (names of locals irrelevant); (h) every 64->32 bit cast of a variable in ftoa.h is value preserving (dominating guard evaluated over wrap-around candidates, bounded quotient, or the remainder idiom). NOT decided: shortest/closest/round-trip (Schubfach interval arithmetic is value level)."),
   note='Trusted: clang 14 front end and constant evaluator; Python big integers / fractions.',
   design='5/C07'),
  'C09': dict(
@@ -75,7 +76,7 @@ CLAIMS = {
   technique='exact table verification against RFC 8259 section 7 (E5); exhaustive evaluation of the page guard and tail mask over their finite domains; interval analysis (E3); closed-form reserve check',
   text=("Decides: (a) kNeedEscaped/kQuoteTab for all 256 bytes; (b) length bound 6n+2; (c) the serializer's reserve covers the worst transient extent for the configuration's vector width; "
         "(d) in the production parse the direct tail read is taken only when no full-vector load can leave the page of the string's last byte - the guard expression is evaluated for every (page offset, tail length) pair - "
-        "the bounce buffer is large enough, the tail mask equals 2^nb-1 for every nb, and with sanitizer macros the over-read branch is absent; (e) the vector loop bound equals the load width. "
+        "the bounce buffer is large enough, the tail mask equals 2^nb-1 for every nb, and with sanitizer macros the over-read branch is absent; (e) the vector loop bound equals the load width; (f) DoEscape dereferences the source cursor only while nb >= 1 is known since src/nb last moved. "
         "NOT decided: that the bytes between the quotes are exactly the escaped input."),
   note='Trusted: clang 14 front end; vector load/store widths (sv/primitives.py); PAGE_SIZE 4096.',
   design='5/C09'),
@@ -84,7 +85,7 @@ CLAIMS = {
   technique='must-dominance dataflow (E2) and interval analysis (E3) over the on-demand entry functions',
   text=("Decides ONLY the structural clauses: a path step into a value of the wrong kind reaches the mismatch error (the index step is dominated by c=='[', the key step by c=='{'); "
         "GetArrayElem returns a non-zero code for every index < 0 (interval proof) and receives the signed index unchanged; every error travels negated; the wrapper clears the slice on error and builds it only from a non-negative start; "
-        "ParseOnDemand parses the target only on success. NOT decided - the bulk of the property: that the selected member/element agrees with the fully parsed DOM (differential semantic statement)."),
+        "ParseOnDemand parses the target only on success; GetArrayElem consumes a value as an element only after excluding the closing bracket; an escaped key is decoded before comparison unless its raw length rules a match out (raw < wanted or raw > 6*wanted; guards evaluated on a grid). NOT decided - the bulk of the property: that the selected member/element agrees with the fully parsed DOM (differential semantic statement)."),
   note='Trusted: clang 14 front end.',
   design='5/C10'),
  'C11': dict(
@@ -110,7 +111,8 @@ CLAIMS = {
   text=("Decides: (a) kEscapedMap maps exactly the eight escapes, and for the four (offset, digit) lookups bound from hex_to_u32_nocheck's data flow the hex table holds hex(b)<<shift or 0xFFFFFFFF for all 256 bytes; "
         "(b) on every path of handle_unicode_codepoint the value handed to codepoint_to_utf8 is never in [0xD800,0xDFFF] and a combined pair always lies in [0x10000,0x10FFFF] (value sets derived from the verified table, refined through the branch conditions); "
         "(c) codepoint_to_utf8 equals UTF-8 on every range boundary +-1 and a stride of all scalar values (every 7th in the thorough tier) and returns 0 above U+10FFFF; "
-        "(d) each error store in parseStringInplace is dominated by the condition of its class. NOT decided: SIMD block classification and the in-place copy loop across alignments."),
+        "(d) each error store in parseStringInplace is dominated by the condition of its class; (e) every consumption of source bytes in parseStringInplace (cursor advance, byte copy, vector store, success return) is dominated, since the current block was computed, by its control-byte screening; "
+        "(f) the three StringBlock predicates equal first-of(quote, backslash, control) for all 4^6 bit placements at the block's edge lanes; (g) the block masks are built from == 0x5c, == 0x22, unsigned < 0x20 in field order. NOT decided: byte counts moved by the in-place copy loop across alignments."),
   note='Trusted: clang 14 front end; Python UTF-8 codec as oracle; loop-freeness of handle_unicode_codepoint (a loop would be exit 2).',
   design='5/C05'),
  'C14': dict(
@@ -118,8 +120,8 @@ CLAIMS = {
   technique='exhaustive evaluation of the page guard; abstract evaluation of the comparison skeleton on the all-equal path for every length up to five blocks (bounds + byte coverage); dominance rules',
   text=("Decides: (a) in_page_32 is true only when a 32-byte load from either operand stays in its page (evaluated for every page offset), returns false under sanitizer macros, and every 32-byte load of the short path is dominated by it; "
         "(b) for every length s = 0..160 (300 thorough) and both guard outcomes, InlinedMemcmpEq and InlinedMemcmp read both operands at equal offsets inside [0,s) and every byte of [0,s) takes part in a comparison; "
-        "(c) the linear lookup guards the comparison by size equality and the map comparator compares min(n1,n2) bytes with a length tie-break; (d) the dynamic-dispatch build forwards to the StringView lookup. "
-        "NOT decided: sign of the three-way result and mismatch localisation."),
+        "(c) the linear lookup guards the comparison by size equality and the map comparator compares min(n1,n2) bytes with a length tie-break; (d) the dynamic-dispatch build forwards to the StringView lookup; (e) every return of the three-way compare family is 0, a forwarded memcmp/family call in operand order, or an unsigned-byte left-minus-right difference at one index - a sign obtained from a signed vector compare (also through a helper) is a violation. "
+        "NOT decided: mismatch localisation (which index is reported first)."),
   note='Trusted: clang 14 front end; Intel semantics of loadu/cmpeq/movemask/and/BZHI; page size 4096.',
   design='5/C14'),
  'C16': dict(
@@ -163,7 +165,7 @@ CLAIMS = {
   technique='must-dominance dataflow over dynamicnode.h for both allocator kinds (E2); evaluation of the growth expressions over a capacity range; key-provenance rule for map entries (E8)',
   text=("Decides: (a) the append stores of AddMember/PushBack are dominated by Capacity()>Size() or a (re)allocation, and the growth expression is strictly increasing for every capacity >= 1 (evaluated for 1..300 and sampled large values) with a positive first capacity; "
         "(b) map maintenance pairing: AddMember with a live map emplaces the new member under its own stored key with the old size as index; EraseMember destroys the map before destroying/compacting members; "
-        "RemoveMember erases the removed entry and re-indexes the moved tail when a map exists; (c) a fresh children block has a null map. "
+        "RemoveMember erases the removed entry and re-indexes the moved tail when a map exists; (c) a fresh children block has a null map; (d) the map comparator compares min(n1,n2) bytes with a length tie-break through a three-way compare that is unsigned left-minus-right on every return (shared with C14). "
         "NOT decided: equality with the vector model, values of repaired indices, iterator results."),
   note='Trusted: clang 14 front end; std::multimap semantics.',
   design='5/C12'),
@@ -173,7 +175,7 @@ CLAIMS = {
   text=("Decides: (a) 15 witnesses: copy construction/assignment of DNode, GenericDocument, WriteBuffer, Stack, SAXHandler, SchemaHandler, Parser do not compile; the deep copy shares character data only for constant strings when copying was not requested; "
         "(b) rawAssign nulls its source on every path and every Xmemcpy/memmove of node ranges is paired with abandoning the source range; (c) every store that rewrites a node header/payload acts on a node that is under construction, "
         "a slot of the handler's own stack, or was destroy()ed first (set*Impl, CopyFrom, clearImpl, handler End* functions); (d) destroy() has arms exactly for object, array and kStringFree and frees what each owns; "
-        "(e) owning raw-pointer fields (str_, schema_str_, st_, buf_) are overwritten only after a release on the call chain, by a realloc of themselves, or by a move that nulls the source. "
+        "(e) owning raw-pointer fields (str_, schema_str_, st_, buf_) are overwritten only after a release on the call chain, by a realloc of themselves, or by a move that nulls the source; (f) the document buffers some member hands to Free (derived: str_, schema_str_) are all exchanged by Swap, taken by move construction/assignment and nulled in the source. "
         "One unrepaired known finding (schema_str_ leak on repeated ParseSchema) is listed in known_findings.json, hence level 'other'. NOT decided: exactly-once over arbitrary histories."),
   note='Trusted: clang 14 front end; clang -verify. Freeing-allocator instantiations are the ones analysed (the pool never frees).',
   design='5/C13'),
